@@ -453,6 +453,23 @@ func runC18(r *Run) {
 		al := mkList(xs.Type, xs, xs)
 		cp := mkList(xs.Type, mkList(types.Num, n(1)), mkList(types.Num, n(1)))
 		c18Pair(r, al, cp, true)
+		// the same for EMPTY composites and optionals (early-return paths of the renderer)
+		em := mkMap(types.Str, types.Num)
+		el := mkList(types.Num)
+		no := val.Nothing(types.Num)
+		for _, p := range [][2]*val.Val{
+			{mkList(em.Type, em, em), mkList(em.Type, mkMap(types.Str, types.Num), mkMap(types.Str, types.Num))},
+			{mkList(el.Type, el, el), mkList(el.Type, mkList(types.Num), mkList(types.Num))},
+			{mkList(no.Type, no, no), mkList(no.Type, val.Nothing(types.Num), val.Nothing(types.Num))},
+			{mkList(types.List(em.Type), mkList(em.Type, em), mkList(em.Type, em)), mkList(types.List(em.Type), mkList(em.Type, mkMap(types.Str, types.Num)), mkList(em.Type, mkMap(types.Str, types.Num)))},
+			{mkObj(types.Obj([]types.Field{{Name: "a", Val: em.Type}, {Name: "b", Val: em.Type}}), em, em), mkObj(types.Obj([]types.Field{{Name: "a", Val: em.Type}, {Name: "b", Val: em.Type}}), mkMap(types.Str, types.Num), mkMap(types.Str, types.Num))},
+			{mkMap(types.Str, em.Type, val.Str("k"), em, val.Str("j"), em), mkMap(types.Str, em.Type, val.Str("k"), mkMap(types.Str, types.Num), val.Str("j"), mkMap(types.Str, types.Num))},
+		} {
+			c18ForceLang = true
+			c18Pair(r, p[0], p[1], true)
+			c18ForceLang = false
+			r.Count("pair:one-value-at-two-positions")
+		}
 	}
 	m := 3000
 	if r.Tier == "thorough" {
